@@ -24,8 +24,12 @@ Oracles (implementation alone), evaluated whenever the queue is empty:
   O4  (once per run, every series x window x filter x maxima/minima of the tables) every number `calculate_trace/stats/psd/rfc` return --
       trace, peak and trough markers, spectral density, all statistics, bin positions and counts -- is the one the TimeSeries methods
       give for the processed (windowed and filtered) signal.
+      The same for containers of SEVERAL series (what one display request hands to each worker), in short-before-long, long-before-short
+      and random orders: every series of the container gets the numbers the library returns for that series alone.
 Catalogue: f1.ts (3 series), f2.ts (2), f3.ts (1), run.ts (2) and sub/run.ts (2) -- the same file name at two depths sharing one series
 name, so that list labels ('run.ts/qg') are ambiguous patterns while full keys are not; labels on screen are mapped to keys through the numbers.
+The files have different lengths (1000, 1200, 700, 900, 1300 samples) and file 3 a different time step: the series of one request differ in
+length (whole series and inside the windows), in both orders.
 
 Known findings (reported through matchers): K1 overlapping display requests, K2 settings read late, K4 clear while a request is in flight
 (K3 = partial import is fixed in /repo: `TsDB.update` checks all keys first; the matcher is kept and never fires on the current tree).
@@ -55,6 +59,11 @@ TWINS = [(0.0, 1_000_000_000.0), (10.0, 100.0), (20.5, 70.25)]
 FILTS = [None, ("lp", 1.0), ("hp", 0.5)]
 NBINS = 12
 NPERSEG = 20000
+# file id -> (number of samples, time step): the files do NOT share a time array -- series of one request differ in length (in file order
+# shorter-then-longer: 1,2 / 4,5 / 3,1 and longer-then-shorter: 2,3 / 5,4 ...) and in time step (file 3), also inside the time windows
+GRID = {1: (1000, 0.1), 2: (1200, 0.1), 3: (700, 0.2), 4: (900, 0.1), 5: (1300, 0.1)}
+# containers of several series as one request hands them to the calculation workers: short before long, long before short, mixed time steps
+CONTAINERS = [[(3, 6), (1, 1), (2, 4)], [(5, 9), (4, 8), (3, 6)], [(1, 2), (1, 3), (4, 7), (5, 7), (2, 5)]]
 DISP = ("R", "Ct", "Cs", "Cp", "Cr")
 VIEWS = ("tr", "sp", "wb", "cy", "tb")
 RULE = ("histories over {import (new / loaded / missing / same file twice / new+loaded), clear, tick, (un)select all, list filter, display, "
@@ -136,10 +145,10 @@ class Env:
         gui.SETTINGS_FILE = os.path.join(self.root, "qats.settings")
         gui.QFileDialog = FakeDialog
         rng = np.random.default_rng(20190919)
-        t = np.arange(1200) * 0.1
         with contextlib.redirect_stdout(io.StringIO()):
             for f, names in CATALOGUE.items():
                 db = TsDB()
+                t = np.arange(GRID[f][0]) * GRID[f][1]
                 for n in names:
                     om, ph, am = rng.uniform(1.6, 4.4, 24), rng.uniform(0, 2 * np.pi, 24), rng.uniform(0.2, 1.0, 24)
                     x = (am[:, None] * np.sin(om[:, None] * t[None, :] + ph[:, None])).sum(axis=0) * (0.5 + 0.1 * n) + \
@@ -300,8 +309,68 @@ class Env:
                     if sig in seen.setdefault(nm, {}):
                         indistinct.append("%s does not distinguish settings %s" % (nm, key))
                     seen[nm][sig] = 1
+        # one request = SEVERAL series in one container: each series gets its own numbers, whatever stands before it in the container
+        for keys in CONTAINERS:
+            for tw, fl in itertools.product(range(len(TWINS)), range(len(FILTS))):
+                self.container_check(chk, keys, tw, fl, bool((tw + fl) % 2))
+        for _ in range(4 if chk.quick else 30):
+            keys = chk.rng.sample(self.allkeys, chk.rng.randint(2, 4))
+            self.container_check(chk, keys, chk.rng.randrange(len(TWINS)), chk.rng.randrange(len(FILTS)), chk.rng.random() < 0.5)
         if indistinct and len(chk.failing) == nfail0:
             raise core.InfraError("C19 reference data: " + "; ".join(indistinct[:3]))
+
+    def container_check(self, chk, keys, tw, fl, mn):
+        """O4 for a container of several series (what one display request hands to each calculation worker): for every series the numbers
+        are those the library proper returns for THAT series with the window / filter / maxima-minima choice.  Returns the failures."""
+        from qats.app import funcs
+        keys = [tuple(k) for k in keys]
+        names = [kstr(k) for k in keys]
+        inp = dict(kind="funcs", keys=names, twin=tw, filt=fl, minima=bool(mn))
+        twin, fargs = TWINS[tw], FILTS[fl]
+        found = []
+
+        def bad(what, name, exp, obs):
+            found.append((what, name))
+            chk.fail("O4 %s called with a container of several series (one display request) returns for every series of the container "
+                     "the numbers the library gives for that series and the settings of the request" % what, inp, exp, obs, series=name)
+        calls = (("calculate_trace", lambda c: funcs.calculate_trace(c, twin, fargs)),
+                 ("calculate_psd", lambda c: funcs.calculate_psd(c, twin, fargs, NPERSEG, False)),
+                 ("calculate_rfc", lambda c: funcs.calculate_rfc(c, twin, fargs, NBINS)),
+                 ("calculate_stats", lambda c: funcs.calculate_stats(c, twin, fargs, minima=bool(mn))))
+        for what, call in calls:
+            chk.count("funcs-container")
+            c = {nm: self.ref[k] for nm, k in zip(names, keys)}
+            try:
+                out = call(c)
+            except Exception as e:      # noqa
+                bad(what, "-", "a result per series", "%s: %s" % (type(e).__name__, e))
+                continue
+            if list(out) != names:
+                bad(what, "-", names, list(out))
+                continue
+            for nm, k in zip(names, keys):
+                r = out[nm]
+                if what == "calculate_trace":
+                    d = self.direct("trace", k, tw, fl)
+                    diff = [q for q in ("t", "x", "tmin", "xmin", "tmax", "xmax") if not close(r[q], d[q])]
+                    if diff:
+                        bad(what, nm, {q: int(np.size(d[q])) for q in diff}, {q: int(np.size(r[q])) for q in diff})
+                elif what == "calculate_psd":
+                    d = self.direct("psd", k, tw, fl)
+                    if not (len(r) == 2 and close(r[0], d[0]) and close(r[1], d[1])):
+                        bad(what, nm, "%d frequencies (df=%.6g Hz), sum of densities %.9g" % (np.size(d[0]), d[0][1] - d[0][0], float(np.sum(d[1]))),
+                            "%d frequencies (df=%.6g Hz), sum of densities %.9g" % (np.size(r[0]), r[0][1] - r[0][0], float(np.sum(r[1]))))
+                elif what == "calculate_rfc":
+                    d = self.direct("rfc", k, tw, fl)
+                    if not (len(r) == 2 and close(r[0], d[0]) and close(r[1], d[1])):
+                        bad(what, nm, "%d bins, total count %g" % (len(d[0]), sum(d[1])), "%d bins, total count %g" % (len(r[0]), sum(r[1])))
+                else:
+                    d = self.direct("stats", k, tw, fl, bool(mn))
+                    nums = [q for q in d if q not in ("sample", "cells", "is_minima") and not q.startswith("wb_")]
+                    diff = [q for q in nums if q not in r or not close(r[q], d[q])]
+                    if diff or not close(np.sort(np.asarray(r.get("sample", []), dtype=float)), np.sort(d["sample"])):
+                        bad(what, nm, {q: float(d[q]) for q in diff} or "sample of TimeSeries.stats", {q: (float(r[q]) if q in r else None) for q in diff} or "different sample")
+        return found
 
     # ---- window --------------------------------------------------------------------------------------------------------------------
     def new_window(self):
@@ -828,8 +897,11 @@ class Runner:
         names = dict(tr="trace", sp="spectrum", wb="peak distribution", cy="cycle histogram", tb="statistics table")
         for v in VIEWS:
             if o[v] != sv[v]:
+                extra = dict(view=v)
+                if v == "sp" and "?" in o[v] and self.rp is not None:
+                    extra["detail"] = self.spectrum_detail()
                 self.fails.append(("O3 when idle the %s shows the series and settings of the most recent display request" % names[v], sv[v], o[v],
-                                   dict(view=v)))
+                                   extra))
             elif sv[v] != "-" and (v, sv[v]) not in self.lib_checked:
                 # right series and settings as far as the workers' own functions go: the drawn numbers must also be the numbers the library
                 # proper (TimeSeries methods, qats.app.funcs not involved) returns for these series and settings
@@ -839,6 +911,25 @@ class Runner:
                     self.fails.append(("O3 when idle the %s shows the numbers the library returns (TimeSeries.get / maxima / minima / psd / rfc / stats "
                                        "called with the window, filter and maxima/minima choice of the most recent display request)" % names[v],
                                        sv[v], od, dict(view=v + "-lib")))
+
+    def spectrum_detail(self):
+        """which drawn spectra are not the library's for the settings of the most recent request (sizes and frequency steps)"""
+        env = self.env
+        sel, (tw, fl, mn, sm) = self.rp
+        gs, _ = _groups(env.win.spectrum_axes.get_lines())
+        out = []
+        for (lab, main, comp), k in zip(gs, sel):
+            if k is None:
+                continue
+            try:
+                f, sp = env.direct("psd", k, tw, fl)
+                fg, sg = np.asarray(main.get_xdata(), dtype=float), np.asarray(main.get_ydata(), dtype=float)
+                if not (close(fg, f) and close(sg, sp)):
+                    out.append("'%s' (%s): drawn %d frequencies (df=%.6g Hz), TimeSeries.psd for the request %d (df=%.6g Hz)"
+                               % (lab, kstr(k), fg.size, (fg[1] - fg[0]) if fg.size > 1 else float("nan"), np.size(f), f[1] - f[0]))
+            except Exception as e:      # noqa
+                out.append("'%s': %s" % (lab, e))
+        return "; ".join(out) if out else "-"
 
     def drain(self, rng=None, order=None):
         """complete everything that is still queued (random order, or first-in first-out)"""
@@ -1098,7 +1189,7 @@ def run(chk):
     chk.assumptions += [
         "QThreadPool is replaced by a queue; worker.run() is called by the harness (signals delivered synchronously, in connection order)",
         "FigureCanvas.draw is a no-op (pixels are not observed; lines, bars, labels and table cells are)",
-        "files f1..f3, run.ts in one directory and sub/run.ts below it; plain series names, one of them on two files; settings taken from 3 windows x 3 filters x maxima/minima x show-in-plot",
+        "files f1..f3, run.ts in one directory and sub/run.ts below it (700..1300 samples, time step 0.1 or 0.2, all starting at t=0); plain series names, one of them on two files; settings taken from 3 windows x 3 filters x maxima/minima x show-in-plot",
         "a view's settings are decoded by matching drawn numbers with qats.app.funcs.calculate_* called directly on separately read series",
         "library reference of the spectrum view: TimeSeries.psd(twin, filterargs, resample=dt, taperfrac=0.1, nperseg=min(20000, length)), of the "
         "statistics: TimeSeries.stats(statsdur=10800, quantiles=(0.37, 0.57, 0.9)) -- the documented choices of the application",
@@ -1193,6 +1284,17 @@ def run(chk):
 
 def replay(rp):
     inp = rp.get("input") or {}
+    if inp.get("kind") == "funcs" and inp.get("keys"):
+        env = Env()
+        try:
+            chk = core.Check("C19", "quick", 1)
+            env.container_check(chk, [tuple(int(v) for v in k.split(".")) for k in inp["keys"]], int(inp["twin"]), int(inp["filt"]), bool(inp.get("minima")))
+            for f in chk.failing[:8]:
+                print("FAILS: %s\n   input %s\n   series %s\n   expected %s\n   observed %s" % (f["oracle"], f["input"], f.get("series"), f["expected"], f["observed"]))
+            print("replay: %d failing clause(s)" % len(chk.failing))
+            return 1 if chk.failing else 0
+        finally:
+            env.close()
     if inp.get("kind") == "funcs":
         env = Env()
         try:
